@@ -17,6 +17,11 @@ CLAIMED = {
             'is decoded by an independent decoder and must denote floor(t). Sampling, not proof: absence of violations is evidence over the explored cases only.',
             'Trusts libc localtime/gmtime for the true offset of a zone; zones whose offset is not a multiple of 15 min are skipped by construction.',
             'DESIGN.md section 3, C19'),
+    'C01': ('exploration',
+            'model-based property testing (Hypothesis): generated edit histories interpreted against the real library and a reference model, written image reopened and compared through the public API',
+            'Generated-input search over edit histories: each program (configuration + 5..200 symbolic edit ops from the profiles mixed/growshrink/deep/links/boot) is applied to a fresh PyCdlib object and to a reference model of the documented semantics; the image is written, reopened by a fresh object and its API view (walk/get_record/get_file_from_iso_fp in every namespace) must equal the model view. Failures are bucketed by signature, re-confirmed on refusal-free programs, attributed to open known findings only if they vanish when that finding\'s avoidance switch alone is on, and minimised by ddmin.',
+            'Trusts the reference model (vf/model.py, each rule cites a docstring). Over-refusals (legal edit refused) are counted, not failed. Files > 4 GiB are not covered in the quick tier.',
+            'DESIGN.md section 3, C01'),
 }
 
 NOT_YET = 'check not built yet in this session (work in progress; see DESIGN.md section 9 for the order)'
